@@ -29,6 +29,12 @@ end FI
 
 namespace Expr
 
+/-- (index count, extent of the axis it sits on) for the free indices of a multi-index -/
+def idxPairs (sh : List Nat) : List (Idx × Nat) → List (Nat × Nat)
+  | [] => []
+  | (.free c, k) :: ps => (c, sh.getD k 0) :: idxPairs sh ps
+  | (.fixed _, _) :: ps => idxPairs sh ps
+
 def freeCounts (is : List Idx) : List Nat :=
   is.filterMap fun | .free c => some c | .fixed _ => none
 
@@ -61,9 +67,7 @@ def fi : Expr → FI
     match k, args with
     | .product, [a, b] | .outer, [a, b] | .inner, [a, b] | .dot, [a, b] | .cross, [a, b] => FI.merge (fi a) (fi b)
     | .indexed, [a, .mi is] =>
-      (is.zipIdx.filterMap fun p => match p.1 with
-        | .free c => some (c, (shape a).getD p.2 0)
-        | .fixed _ => none).foldl (fun acc p => FI.insert p acc) (fi a)
+      (idxPairs (shape a) is.zipIdx).foldl (fun acc p => FI.insert p acc) (fi a)
     | .indexSum, [a, .mi [.free j]] => FI.remove j (fi a)
     | .componentTensor, [a, .mi is] => (freeCounts is).foldl (fun acc c => FI.remove c acc) (fi a)
     | .eQ, _ | .nE, _ | .lE, _ | .gE, _ | .lT, _ | .gT, _ | .andCondition, _ | .orCondition, _ | .notCondition, _ => []
